@@ -40,7 +40,7 @@ func init() {
 				}
 				return 20_000
 			}, Run: c16Case, CaseCPU: 120,
-				Min: map[string]int64{"graphics": 4000, "relation_offset": 4000, "relation_scale": 4000, "relation_colours": 4000, "relation_drawop": 4000, "relation_src_background": 3000, "lod_ranges": 3000, "offset_rendering_expressed_as_bytes": 1500, "scaled_rendering_expressed_as_bytes": 1500, "one_renderer_for_all_renderings": 3000, "rasterizer_from_NewRasterizer": 3000, "sentinel_pixels": 100000, "rgba_images": 1000, "alpha_images": 1000,
+				Min: map[string]int64{"graphics": 4000, "relation_offset": 4000, "relation_scale": 4000, "relation_colours": 4000, "relation_drawop": 4000, "relation_src_background": 3000, "lod_ranges": 3000, "offset_zero_in_a_larger_image": 1000, "offset_rendering_expressed_as_bytes": 1500, "scaled_rendering_expressed_as_bytes": 1500, "one_renderer_for_all_renderings": 3000, "rasterizer_from_NewRasterizer": 3000, "sentinel_pixels": 100000, "rgba_images": 1000, "alpha_images": 1000,
 					"sizes_above_512": 50, "gradient_paths": 2000, "skipped_first_path": 500, "nontrivial_renderings": 3000}},
 		},
 	})
@@ -466,6 +466,17 @@ func c16Case(c *run.Ctx, idx uint64) {
 	// (a) offset inside a larger image, sentinel frame
 	{
 		off := image.Pt(r.Range(1, 20), r.Range(1, 20))
+		switch r.Intn(8) {
+		case 0:
+			off = image.Point{} // a rectangle at the origin of a wider and higher image
+		case 1:
+			off.X = 0
+		case 2:
+			off.Y = 0
+		}
+		if off == (image.Point{}) {
+			c.Count("offset_zero_in_a_larger_image", 1)
+		}
 		big := newImg(rgba, image.Rectangle{Max: size.Add(off).Add(image.Pt(r.Range(1, 9), r.Range(1, 9)))})
 		fillPattern(big, bg+1)
 		ownBg := newImg(rgba, own)
